@@ -87,6 +87,12 @@ Theorem C11_lost_server_finished_recovers :
   pair_codes (lose_server 5) = (1, 2) /\ both_agree (round sym (lose_server 5)) = true.
 Proof. exact lost_server_finished_recovers. Qed.
 
+(* and losing it twice (the original and the answer to the first client retransmission) by the next one *)
+Theorem C11_server_finished_lost_twice_recovers :
+  pair_codes (round_losing [] [5; 7]%nat (lose_sets [] [5; 7]%nat)) = (1, 2) /\
+  both_agree (round sym (round_losing [] [5; 7]%nat (lose_sets [] [5; 7]%nat))) = true.
+Proof. exact server_finished_lost_twice_recovers. Qed.
+
 (* REFUTED (finding F20, open): the fragment buffer appends in arrival order.  The Certificate split in
    three, delivered 0,2,1 (or with the middle fragment duplicated) assembles to garbage: the client
    fails for good (Failed is absorbing, C02_failed_is_absorbing) and the server is left Handshaking;
